@@ -3,8 +3,9 @@ package props
 import (
 	"github.com/uhn/ggql/pkg/ggql"
 
-	"strings"
 	"fmt"
+	"sort"
+	"strings"
 	"time"
 
 	"verif/mc/core"
@@ -339,8 +340,9 @@ func runC08(c *core.Ctx) {
 		}
 	}
 	c08NameProbes(c)
+	c08LateRegistration(c)
 	_ = k
-	c.R.Bound = "49 membership variants x 7 abstract bases x 5 binding modes x 2 graphs; mutation depth per variant: quick 0 (9 corner variants 1), thorough 1 (default variant 2); + all ordered request pairs on one root (10 x 7 documents) and every single implements / union-member extension loaded between requests, for the 9 corner variants (thorough: all 49); + Go type names containing one another x 5 bindings x all member and value orders"
+	c.R.Bound = "49 membership variants x 7 abstract bases x 5 binding modes x 2 graphs; mutation depth per variant: quick 0 (9 corner variants 1), thorough 1 (default variant 2); + all ordered request pairs on one root (10 x 7 documents) and every single implements / union-member extension loaded between requests, for the 9 corner variants (thorough: all 49); + Go type names containing one another x 5 bindings x all member and value orders; + every sequence <= 5 of 3 requests and 2 RegisterType calls on one root (types that bind by registration only)"
 	if !completed {
 		c.Cap("deadline reached")
 	}
@@ -446,4 +448,168 @@ func c08NameProbes(c *core.Ctx) {
 			}
 		}
 	}
+}
+
+// ---- Part E: late registration. Go types that bind to their object types by RegisterType only (the names differ, no @go):
+// every sequence of requests and RegisterType calls on one root, up to 5 steps. From the moment a Go type is registered an
+// object of it is resolved as its concrete type, whatever the root was asked before (what an object of an unregistered type
+// gives is not stated and not compared).
+
+type c08Hound struct{ Name string }
+type c08Tabby struct{ Name string }
+type c08LQuery struct {
+	Animals []interface{}
+	Pets    []interface{}
+	Animal  interface{}
+	Pet     interface{}
+}
+type c08LRoot struct{ Query *c08LQuery }
+
+func c08LateRegistration(c *core.Ctx) {
+	const sdl = "type Query { animals: [Animal] pets: [Pet] animal: Animal pet: Pet }\ninterface Animal { name: String }\n" +
+		"type Dog implements Animal { name: String }\ntype Cat implements Animal { name: String }\nunion Pet = Dog | Cat\n"
+	type step struct {
+		name  string
+		query string
+		reg   string
+	}
+	alphabet := []step{
+		{name: "animals", query: "{animals{__typename name ... on Dog{d: name} ... on Cat{c: name}}}"},
+		{name: "pets", query: "{pets{__typename ... on Dog{name} ... on Cat{name}}}"},
+		{name: "single", query: "{animal{__typename name ... on Animal{n2: name}} pet{__typename ... on Cat{name}}}"},
+		{name: "register-Dog", reg: "Dog"},
+		{name: "register-Cat", reg: "Cat"},
+	}
+	// expected element per (field, GraphQL type)
+	elem := func(field, tn string) map[string]interface{} {
+		nm := map[string]string{"Dog": "rex", "Cat": "tom"}[tn]
+		m := map[string]interface{}{"__typename": tn, "name": nm}
+		switch field {
+		case "animals":
+			m[map[string]string{"Dog": "d", "Cat": "c"}[tn]] = nm
+		case "animal":
+			m["n2"] = nm
+		case "pet":
+			if tn != "Cat" {
+				delete(m, "name")
+			}
+		}
+		return m
+	}
+	var idx int64
+	var rec func(seq []int)
+	rec = func(seq []int) {
+		if len(seq) > 0 && alphabet[seq[len(seq)-1]].query != "" {
+			idx++
+			if c.OwnsIdx(idx) {
+				c.Eval()
+				c.R.Distinct++
+				c.Nontrivial()
+				q := &c08LQuery{
+					Animals: []interface{}{&c08Hound{Name: "rex"}, &c08Tabby{Name: "tom"}, &c08Hound{Name: "rex"}},
+					Pets:    []interface{}{&c08Tabby{Name: "tom"}, &c08Hound{Name: "rex"}},
+					Animal:  &c08Hound{Name: "rex"},
+					Pet:     &c08Tabby{Name: "tom"},
+				}
+				goOf := map[string]string{"Dog": "c08Hound", "Cat": "c08Tabby"}
+				root := ggql.NewRoot(&c08LRoot{Query: q})
+				if err := root.ParseString(sdl); err != nil {
+					panic(core.EngineError{Msg: "C08 late registration schema refused: " + err.Error()})
+				}
+				registered := map[string]bool{}
+				var names []string
+				var res map[string]interface{}
+				var regErr error
+				pi := core.Safe(func() {
+					for _, si := range seq {
+						st := alphabet[si]
+						names = append(names, st.name)
+						if st.reg != "" {
+							var v interface{} = &c08Hound{}
+							if st.reg == "Cat" {
+								v = &c08Tabby{}
+							}
+							if regErr = root.RegisterType(v, st.reg); regErr != nil {
+								return
+							}
+							registered[goOf[st.reg]] = true
+							continue
+						}
+						res = root.ResolveString(st.query, "", nil)
+					}
+				})
+				detail := map[string]interface{}{"sdl": sdl, "steps": names, "last_response": res}
+				switch {
+				case pi != nil:
+					detail["panic"] = pi.Value
+					c.Violation("panic", map[string]string{"site": pi.Site, "class": pi.Class, "part": "late-registration"}, detail)
+				case regErr != nil:
+					detail["error"] = regErr.Error()
+					c.Outcome("late-registration-refused")
+					c.Violation("registration-refused", map[string]string{"part": "late-registration"}, detail)
+				default:
+					// compare what the last request says about every object whose Go type is registered by now
+					data, _ := res["data"].(map[string]interface{})
+					var diffs []string
+					check := func(field string, goVal interface{}, got interface{}, where string) {
+						tn, goName := "Dog", "c08Hound"
+						if _, isCat := goVal.(*c08Tabby); isCat {
+							tn, goName = "Cat", "c08Tabby"
+						}
+						if !registered[goName] {
+							return
+						}
+						if dd := world.Diff(world.Canon(elem(field, tn)), world.Canon(got), where); dd != "" {
+							diffs = append(diffs, dd)
+						}
+					}
+					for field, vals := range map[string][]interface{}{"animals": q.Animals, "pets": q.Pets} {
+						l, has := data[field].([]interface{})
+						if _, asked := data[field]; !asked && !has {
+							continue
+						}
+						if len(l) != len(vals) {
+							diffs = append(diffs, fmt.Sprintf("%s: %d elements, want %d", field, len(l), len(vals)))
+							continue
+						}
+						for i := range vals {
+							check(field, vals[i], l[i], fmt.Sprintf("%s[%d]", field, i))
+						}
+					}
+					if got, asked := data["animal"]; asked {
+						check("animal", q.Animal, got, "animal")
+					}
+					if got, asked := data["pet"]; asked {
+						check("pet", q.Pet, got, "pet")
+					}
+					if len(registered) == 2 && res["errors"] != nil {
+						diffs = append(diffs, fmt.Sprintf("both types registered, yet errors: %v", res["errors"]))
+					}
+					if len(diffs) > 0 {
+						sort.Strings(diffs)
+						detail["diff"] = diffs
+						c.Outcome("late-registration-diff")
+						c.Violation("data-diff", map[string]string{"part": "late-registration", "registered": fmt.Sprint(len(registered))}, detail)
+					} else {
+						c.Outcome("late-registration-agree")
+					}
+				}
+			}
+		}
+		if len(seq) == 5 {
+			return
+		}
+		for ai, st := range alphabet {
+			dup := false
+			for _, si := range seq {
+				if st.reg != "" && si == ai {
+					dup = true
+				}
+			}
+			if !dup {
+				rec(append(append([]int{}, seq...), ai))
+			}
+		}
+	}
+	rec(nil)
 }
